@@ -5,7 +5,7 @@
    Layer A: the algebra of one local update.  Statements only. *)
 From Coq Require Import List Arith ZArith.
 From PTN Require Import Tree.RTree Tree.Nav Tree.UpdatePath Tree.CachePath Tree.Enum Tree.EnumProofs
-     Sched.TDVP Sched.TDVPProofs Sched.TDVPFresh Sched.TDVPBounded.
+     Sched.TDVP Sched.TDVPProofs Sched.TDVPMore Sched.TDVPFresh Sched.TDVPBounded.
 Import ListNotations.
 
 (* ---- both variants run on every tree (first order: also a single node) ------------------ *)
@@ -56,12 +56,18 @@ Theorem C06_sched_ok_meaning : forall t tr, sched_ok t tr ->
 Proof. intros t tr H. exact H. Qed.
 Print Assumptions C06_sched_ok_meaning.
 
-(* ---- second_order_palindrome: the (object, signed factor) sequence reads the same backwards,
-        so the step with -H applies the inverse local updates in reverse order: bounded --------- *)
-Theorem C06_second_order_palindrome_bounded_10 : forall t, In t (trees_upto 10) -> 2 <= size t ->
-  exists tr, trace2 t = Some tr /\ objs tr = rev (objs tr).
-Proof. intros t H1 H2. exact (proj1 (palindrome_bounded_10 t H1 H2)). Qed.
-Print Assumptions C06_second_order_palindrome_bounded_10.
+(* ---- second_order_palindrome: the (object, signed factor) sequence reads the same backwards on
+        EVERY tree, so the step with -H applies the inverse local updates in reverse order ----- *)
+Theorem C06_second_order_palindrome : forall t tr, NoDup (ids t) -> trace2 t = Some tr -> objs tr = rev (objs tr).
+Proof. exact trace2_palindrome. Qed.
+Print Assumptions C06_second_order_palindrome.
+
+(* the turning point: the last two nodes of the update path are adjacent (the first backward
+   link update acts on an edge) *)
+Theorem C06_turning_point_on_edge : forall t, NoDup (ids t) -> 2 <= size t ->
+  exists l y z, update_path t = Some (l ++ [y; z]) /\ adjacent t y z.
+Proof. exact update_path_last_two. Qed.
+Print Assumptions C06_turning_point_on_edge.
 
 Theorem C06_enumeration_complete : forall t n, size t <= n -> In (relabel (erase t)) (trees_upto n).
 Proof. exact trees_upto_complete. Qed.
